@@ -19,7 +19,7 @@ import rx
 
 from ..common import Check, Outcome, Snap, subscribe, bootstrap, norm, interleave
 from ..muxmon import ttap
-from ..progs import Boom
+from ..progs import Boom, boom_for
 
 rs = bootstrap()
 
@@ -54,7 +54,7 @@ def fail_op(kind, F, mode):
             'replaced' : fault-free operator sequence whose effect is 'failing item replaced in place by g(error)'"""
     def chk(x):
         if mode == 'faulty' and item_id(x) in F:
-            raise Boom(x)
+            raise boom_for(item_id(x), x)
     inF = lambda x: item_id(x) in F                            # noqa: E731
     if kind == 'map':
         def f(x):
